@@ -362,7 +362,7 @@ def run(tier):
     nfm, badf = frames_macro(common.seed(), 200 if tier == 'quick' else 3000)
     rep.bounded.append({'function': 'skoolkit.skoolmacro.parse_frames (#FRAMES) -> ImageWriter.write_image (multi-frame APNG)',
                         'contract': 'one frame per specification with the delay and offsets the documentation gives (delay carried over, offsets default (0,0)); fcTL/fdAT sequence numbers, acTL count; each frame decodes to the display rules',
-                        'bound': '%d sequences of 1-5 frames, every parameter form' % nfm, 'evaluations': nfm})
+                        'bound': '%d sequences of 1-5 frames, every parameter form; a sixth of them name an earlier frame again with other delays/offsets' % nfm, 'evaluations': nfm})
     seenf = set()
     for b in badf:
         key = 'C15/frames/%s' % b[2]
@@ -952,11 +952,15 @@ def frames_macro(seed, n):
             fmap['f%d' % k] = Frame(udgs, scale)
         specs = []
         exp = []
+        used = []
         delay = 32
         for k in range(nf):
             form = rnd.randrange(7) if t >= 14 else (t // 2 if k == nf - 1 else rnd.choice((3, 4)))
+            # a third of the later cases name an earlier frame again (a;b;a): each use keeps the delay and offsets of its own specification
+            src = rnd.randrange(k) if k and t >= 14 and t % 3 == 0 and rnd.randrange(2) else k
+            used.append(src)
             # (offsets keep the frame inside the first frame's canvas, 3 x 2 tiles: APNG requires it and skoolkit leaves it to the author)
-            fw_, fh_ = len(tiles['f%d' % k][0]), len(tiles['f%d' % k])
+            fw_, fh_ = len(tiles['f%d' % src][0]), len(tiles['f%d' % src])
             d, x, y = rnd.randrange(1, 200), rnd.randrange(0, (3 - fw_) * 8 * scale + 1), rnd.randrange(0, (2 - fh_) * 8 * scale + 1)
             if k == 0:
                 x = y = 0
@@ -975,7 +979,7 @@ def frames_macro(seed, n):
             else:
                 txt, e = ',,%d' % x, (delay, x, 0)
             delay = e[0]
-            specs.append('f%d%s' % (k, txt))
+            specs.append('f%d%s' % (src, txt))
             exp.append(e)
         text = '(%s)(img)' % ';'.join(specs)
         try:
@@ -998,7 +1002,7 @@ def frames_macro(seed, n):
                 if nf > 1 and ((fx, fy) != (e[1], e[2]) or dn * 100 != e[0] * dd):
                     bad.append(('frame %d is placed at (%d,%d) with delay %d/%d, specified (%d,%d), %d/100' % (k + 1, fx, fy, dn, dd, e[1], e[2], e[0]), text, 'image'))
                     break
-                udgs = tiles['f%d' % k]
+                udgs = tiles['f%d' % used[k]]
                 want = [[tuple(colours[c]) for c in row] for row in render(udgs, scale, 0, 0, 0, len(udgs[0]) * 8 * scale, len(udgs) * 8 * scale, iw)]
                 if [[tuple(px) for px in row] for row in rows] != want:
                     bad.append(('frame %d does not decode to the display rules' % (k + 1), text, 'image'))
